@@ -29,41 +29,65 @@ def fireSleeper (sl : Sleeper) : M Unit :=
   modS fun s => { s with sleepers := s.sleepers.filter (·.sid ≠ sl.sid),
                          k := ({ s.k with now := max s.k.now sl.deadline }).resolve }
 
-def stepM (op : Op) : M Unit := do
-  let s0 ← getS
-  if s0.blocked then pure () else
-  setK s0.k.beginStep
-  match op with
-  | .start =>
+/-- what the stimulus itself does (before the loop runs to quiescence) -/
+def stepOp : Op → M Unit
+  | .start => do
     let desc ← iterWatchers true
     clearDone
     let r ← syncCoroutine "arbiter_start_watchers" (.arbStartWatchers desc) []
     match r with | .error _ => emit .conflict | .ok tid => addDoneCallback tid .watch
   | .req cid j => handleMessage (some cid) j
   | .sigreq q => if q then sigQuit else handleMessage none (some reloadMsg)
-  | .check =>
+  | .check => do
     clearDone
     let r ← syncCoroutine "manage_watchers" .manageWatchers []
     match r with | .error _ => emit .conflict | .ok tid => addDoneCallback tid .watch
-  | .wake =>
+  | .wake => do
     let s ← getS
     match earliest s.sleepers with
     | none => emit .nosleeper
     | some sl =>
       fireSleeper sl
       deliver (exec fuelDefault) sl.waiter .unit
-  | .adv ms =>
+  | .adv ms => do
     let s ← getS
     let lim := (s.sleepers.map (·.deadline)).foldl min (s.k.now + ms)
     setK ({ s.k with now := max s.k.now (min (s.k.now + ms) lim) }).resolve
   | .die pid st => do let k ← getK; setK (k.die pid st)
   | .xkill pid sig => do let _ ← kKill pid sig "x"
   | .fault n pid st => do let k ← getK; setK { k with faults := k.faults ++ [(n, pid, st)] }
+
+/-- the loop runs until nothing is ready; a stopped loop makes `Arbiter.start` close everything -/
+def stepTail : M Unit := do
   settle 100000
   let a ← getA
   if a.loopStop then
     setLoopStop false
     stopController
+
+def stepM (op : Op) : M Unit := do
+  let s0 ← getS
+  if s0.blocked then pure () else
+  setK s0.k.beginStep
+  stepOp op
+  stepTail
+
+/-- give the configured watchers their identities 1, 2, … -/
+def assignUids : List Watcher → Nat → List Watcher
+  | [], _ => []
+  | w :: ws, n => { w with uid := n } :: assignUids ws (n + 1)
+
+/-- the daemon after `Arbiter.__init__` + `initialize()`: every configured watcher is in the
+    list (configuration order) and in the dict (filled in `iter_watchers()` order; a later
+    watcher with the same lower-cased name overwrites the earlier entry) -/
+def initState (cfg : List Watcher) (behavs : List Behav) (arbWarmup : Nat) : State :=
+  let ws := assignUids cfg 1
+  let sorted := sortWatchers ws true
+  { k := { behavs := if behavs.isEmpty then [{}] else behavs },
+    a := { watchers := ws.map (·.uid),
+           names := sorted.foldl (fun acc w => acc.filter (·.1 ≠ pyLower w.name) ++ [(pyLower w.name, w.uid)]) [],
+           warmup := arbWarmup },
+    ws := ws, nextId := cfg.length + 1 }
 
 def step (s : State) (op : Op) : State := (stepM op s).2
 
